@@ -292,6 +292,12 @@ type instantiator struct {
 	instances   []*instance
 	instanceMap *container.IntSliceMap[*instance] // [nonterm, boundParam #1, ...] ->
 	sets        map[*TokenSet]*TokenSet           // compound set -> its instantiated copy
+	refs        map[int]instanceRef               // position in the current rule -> instantiated reference
+}
+
+type instanceRef struct {
+	nonterm int // in the original model
+	symbol  int // in the instantiated model
 }
 
 func (i *instantiator) resolveInstance(context *instance, nonterm int, args []Arg) *instance {
@@ -382,13 +388,29 @@ func (i *instantiator) doExpr(context *instance, expr *Expr) *Expr {
 	switch expr.Kind {
 	case Reference:
 		if nt := expr.Symbol - len(i.m.Terminals); nt >= 0 {
-			return &Expr{
+			ret := &Expr{
 				Kind:   expr.Kind,
 				Symbol: len(i.m.Terminals) + i.resolveInstance(context, nt, expr.Args).index,
 				Pos:    expr.Pos,
 				Origin: expr.Origin,
 				Model:  i.m,
 			}
+			if expr.Pos > 0 {
+				i.refs[expr.Pos] = instanceRef{nonterm: nt, symbol: ret.Symbol}
+			}
+			return ret
+		}
+	case List:
+		// The body of a list is a rule of its own, positions start from one again.
+		outer := i.refs
+		i.refs = make(map[int]instanceRef)
+		defer func() { i.refs = outer }()
+	case Command:
+		if expr.CmdArgs != nil && len(expr.CmdArgs.ArgRefs) > 0 {
+			ret := *expr
+			ret.Model = i.m
+			ret.CmdArgs = i.doCmdArgs(expr.CmdArgs)
+			return &ret
 		}
 	case Conditional:
 		if !i.check(context, expr.Predicate) {
@@ -426,6 +448,25 @@ func (i *instantiator) doExpr(context *instance, expr *Expr) *Expr {
 		} else {
 			return ret.Sub[0]
 		}
+	}
+	return &ret
+}
+
+// doCmdArgs re-points the symbols visible to a command to the instantiated nonterminals. Every
+// instance of a rule gets its own copy, the original refers to nonterminals of the template model.
+func (i *instantiator) doCmdArgs(args *CmdArgs) *CmdArgs {
+	ret := *args
+	ret.ArgRefs = make(map[int]ArgRef, len(args.ArgRefs))
+	for pos, ref := range args.ArgRefs {
+		if nt := ref.Symbol - len(i.m.Terminals); nt >= 0 {
+			inst, ok := i.refs[pos]
+			if !ok || inst.nonterm != nt {
+				// The reference is not part of this instance of the rule (false predicate).
+				continue
+			}
+			ref.Symbol = inst.symbol
+		}
+		ret.ArgRefs[pos] = ref
 	}
 	return &ret
 }
@@ -480,6 +521,7 @@ func Instantiate(m *Model) error {
 	// Keep instantiating the production rules until we've instantiated all the required nonterminals.
 	for i := 0; i < len(inst.instances); i++ {
 		curr := inst.instances[i]
+		inst.refs = make(map[int]instanceRef)
 		curr.val = inst.doExpr(curr, m.Nonterms[curr.nonterm].Value)
 		curr.suffix = inst.suffix(curr.args)
 	}
